@@ -421,7 +421,10 @@ structure DftOpsSound (c : Module.Parts α) (nn : Nat) where
     (∀ t, t < nn → b.getD t 0 = fb t) → small_product_budget fa fb →
     ∀ t, t < nn → (Module.smallProduct c a b).getD t 0 = polyMul nn fa fb t
 
-/-- well-formedness and budget of one call of a mixed program, on the abstract state -/
+/-- well-formedness and budget of one call of a mixed program, on the abstract state.
+    `vmpDD d a m` requires `d ≠ a`: `vmp_apply_dft_to_dft` is NOT an in-place function (for `nn < 8` the C code,
+    `vector_matrix_product.c` and its avx twin, writes column 0 of `res` and then reads row 0 of `a_dft` again for
+    column 1), while `cstepD` computes the result from the old content of `a`. -/
 def PreD {c : Module.Parts α} {nn : Nat} (S : DftOpsSound c nn) (vars : List Var) : OpD → AState → Prop
   | .coeff op, s => OpPre nn vars op s.env
   | .dft d a, s => a ∈ vars ∧ S.dft_budget d.size a.size (fun i t => (s.env a).coef i t)
@@ -432,7 +435,7 @@ def PreD {c : Module.Parts α} {nn : Nat} (S : DftOpsSound c nn) (vars : List Va
       S.vmp_prepare_budget m.nrows m.ncols (fun i t => (s.env a).coef i t)
   | .vmp d a m, s => a ∈ vars ∧ ∃ M, s.pmat m = some M ∧
       S.vmp_budget d.size a.size (fun i t => (s.env a).coef i t) M m.nrows m.ncols
-  | .vmpDD d a m, s => ∃ P M, s.dvec a = some P ∧ s.pmat m = some M ∧
+  | .vmpDD d a m, s => d ≠ a ∧ ∃ P M, s.dvec a = some P ∧ s.pmat m = some M ∧
       S.vmp_dd_budget d.size (s.raw a) P a.size M m.nrows m.ncols
   | .idft d a, s => d ∈ vars ∧ ∃ P, s.dvec a = some P ∧ S.idft_budget P a.size
   | .smallProduct d a b, s => d ∈ vars ∧ a ∈ vars ∧ b ∈ vars ∧ d.size = 1 ∧ 0 < a.size ∧ 0 < b.size ∧
